@@ -162,8 +162,8 @@ def bfs_linear(h, idx):
 
 class BfsMixin:
     """adds the tiny-domain closures to a history check and reports them in the evidence"""
-    bfs_quick = [(1, 2, 1, 1), (1, 3, 1, 1)]
-    bfs_thorough = [(1, 2, 1, 1), (1, 3, 1, 1), (2, 3, 2, 1), (1, 3, 1, 2)]
+    bfs_quick = [(1, 2, 1, 1), (2, 2, 2, 1), (1, 3, 1, 1)]
+    bfs_thorough = [(1, 2, 1, 1), (2, 2, 2, 2), (1, 3, 1, 1), (1, 3, 1, 2)]
 
     def bfs_histories(self, tier):
         self._bfs = []
@@ -192,7 +192,7 @@ class C02(BfsMixin, SpecProp):
             "present and of collected ids, reads of ungrouped vertices, binds across groups) continued randomly, 20% boundary "
             "prefixes (exactly N labels, exactly 16 members, exactly 14 groups, last free id), 40% structured random; every "
             "call is judged against the extracted reference model while the reference model says the history is inside the "
-            "limits (preb); plus the breadth-first closure of two tiny domains (2 ids / 3 ids, one label, one datum, N=1): every "
+            "limits (preb); plus the breadth-first closure of tiny domains (2 ids with 2 labels and N=2; 3 ids, one label, N=1): every "
             "transition of the closed state space is run on model and implementation; non-trivial = the history contains at "
             "least one collection; distinct = distinct final state")
     assumptions = ["the limits and preconditions are judged by preb (proved equivalent to pre, C02_limits_decided) on the reference run"]
@@ -523,7 +523,9 @@ class C05(SpecProp):
     def oracle(self, h, il):
         f = self.fresh_oracle(h, il)
         if f is not None:
-            return f
+            lim = gen.first_outside_limits(h)
+            if lim is None or f["index"] < lim:
+                return f
         return self.spec_oracle(h, il)
 
     def nontrivial(self, h, il):
@@ -598,9 +600,12 @@ class C06(SpecProp):
         f = self.spec_oracle(h, il)
         if f is not None:
             return f
+        sl = self.spec_lines.get(h.hid) or []
         for i, t, res, before, after in Walk(h, il):
             if len(t) < 2:
                 continue
+            if i < len(sl) and "pre=1" not in sl[i]:
+                break          # the history has left the limits / preconditions: no claim from here on
             s1 = after.get(t[1])
             if s1 is None or res == "PANIC":
                 continue
